@@ -100,6 +100,30 @@ def s1(ctx):
                     if lazy:
                         for cb in consume:
                             ind.append((cb, what + " (consumed)"))
+    # the search / apply phases may live in private helpers (`search_rewrites(&eg, rules)`, `apply_found(&mut eg, rules, found)`):
+    # a call of a library function that itself invokes a stored searcher / applier is an invocation site, mutating iff it gets
+    # the e-graph mutably; the applier loop is then looked for inside the helper
+    def invokes_stored_fn(f, depth=0):
+        for sub2 in f.all_bodies():
+            for c2 in sub2.calls:
+                if sub2.blocks[c2.bb]["cleanup"]:
+                    continue
+                if c2.callee is None or (c2.callee.name in ("call", "call_mut", "call_once") and (c2.callee.trait or "").startswith("std::ops::Fn")):
+                    return True
+                if depth < 2 and c2.callee.target in crate.bodies and crate.bodies[c2.callee.target].kind != "Closure" and invokes_stored_fn(crate.bodies[c2.callee.target], depth + 1):
+                    return True
+        return False
+    helper_loops = []
+    for c in b.calls:
+        if b.blocks[c.bb]["cleanup"] or not c.callee or c.callee.target not in crate.bodies:
+            continue
+        hb = crate.bodies[c.callee.target]
+        if hb.kind == "Closure" or hb.id == b.id or not invokes_stored_fn(hb):
+            continue
+        mut = any(hb.local_ty(l).startswith("&mut") for l in range(1, hb.argc + 1))
+        ind.append((c.bb, "%s(..)%s" % (hb.name, "" if mut else " (read-only)")))
+        if mut:
+            helper_loops.append(hb)
     ctx.floor("searcher/applier invocation sites", len(ind), 2)
     ctx.floor("mutating invocation sites (appliers)", len([1 for _, w in ind if "(read-only)" not in w]), 1)
     for bb_, what in ind:
@@ -112,6 +136,9 @@ def s1(ctx):
     lp = C.iterator_loops(b)
     for l in lp:
         ctx.check(C.loop_exhaustive(b, l), "all-appliers-run:%d" % l[0], "the applier loop runs for every rule", "the applier loop can stop early: later rules are never applied in this iteration", where_of(b, l[0]))
+    for hb in helper_loops:
+        for l in C.iterator_loops(hb):
+            ctx.check(C.loop_exhaustive(hb, l), "all-appliers-run:" + C.fkey(hb), "the applier loop of %s runs for every rule" % hb.name, "the applier loop of %s can stop early: later rules are never applied in this iteration" % hb.name, where_of(hb, l[0]))
     # searchers see the e-graph before any applier of this round (observed, not armed)
     ctx.info("searcher results are collected before the applier loop: %s" % any(w.endswith("(consumed)") for _, w in ind))
 
